@@ -113,6 +113,18 @@ def from_real(r):
     raise Unrepresentable(repr(r))
 
 
+def canon_t(e):
+    """Keyword arguments sorted by key at every call (Python's == ignores their order)."""
+    k = e[0]
+    if k in ("var", "int"):
+        return e
+    if k in ("sum", "prod"):
+        return (k, [canon_t(c) for c in e[1]])
+    if k in ("quot", "pow"):
+        return (k, canon_t(e[1]), canon_t(e[2]))
+    return ("call", canon_t(e[1]), [canon_t(c) for c in e[2]], sorted((kk, canon_t(v)) for kk, v in e[3]))
+
+
 def coq_str(s):
     assert '"' not in s
     return '"%s"' % s
@@ -288,7 +300,7 @@ def run_impl(c):
     except Unrepresentable as ex:
         out.update(kind="exc", exception="Unrepresentable", message=str(ex)[:200])
         return out
-    out.update(kind="ok", sigma=sigma, ambiguous=amb, records=records, real=res)
+    out.update(kind="ok", sigma=sigma, ambiguous=amb, records=records)
     return out
 
 
@@ -336,13 +348,21 @@ def ev(e, salt):
             raise Undefined
         return b ** int(x)
     if type(e) in (p.Call, p.CallWithKwargs):
-        if not isinstance(e.function, p.Variable):
-            raise IllFormed("function position is not a symbol: %r" % (e.function,))
+        # the function table is indexed by the function symbol; a compound expression in function position
+        # (only possible when the caller's pre_match binds a function symbol to one) is indexed by its structure,
+        # as F (canon f) in the Coq semantics
+        if isinstance(e.function, p.Variable):
+            fkey = e.function.name
+        else:
+            try:
+                fkey = repr(canon_t(from_real(e.function)))
+            except Unrepresentable as ex:
+                raise IllFormed("function position: %s" % ex)
         args = tuple(ev(c, salt) for c in e.parameters)
         kw = ()
         if type(e) is p.CallWithKwargs:
             kw = tuple(sorted((kk, ev(v, salt)) for kk, v in e.kw_parameters.items()))
-        return Fraction(_h(salt, "fun", e.function.name, args, kw) % 15 - 7)
+        return Fraction(_h(salt, "fun", fkey, args, kw) % 15 - 7)
     raise IllFormed("unexpected node %r" % (e,))
 
 
@@ -365,7 +385,7 @@ def oracle(c, r, seed=0):
             return {"kind": "wrong_error", "expected": "pre_match not a candidate", "name": bad[0]}
         return None
     from dagrt.expression import substitute
-    res = r["real"]
+    res = {x: to_real(v) for x, v in r["sigma"]}
     extra = sorted(x for x in res if x not in free)
     if extra:
         return {"kind": "binds_non_free", "names": extra}
@@ -496,6 +516,32 @@ def scramble(rng, e, free, p_drop):
     return ("call", e[1], [scramble(rng, ch, free, p_drop) for ch in e[2]], kw)
 
 
+def perturb_calls(rng, e, p=0.3):
+    """Make the target differ from an instance of the template at a call: drop/add a positional argument,
+    drop a keyword argument, or rename the function symbol (a sound matcher must then fail or bind accordingly)."""
+    k = e[0]
+    if k in ("var", "int"):
+        return e
+    if k in ("sum", "prod"):
+        return (k, [perturb_calls(rng, c, p) for c in e[1]])
+    if k in ("quot", "pow"):
+        return (k, perturb_calls(rng, e[1], p), perturb_calls(rng, e[2], p))
+    f, args, kw = e[1], [perturb_calls(rng, c, p) for c in e[2]], [(kk, perturb_calls(rng, v, p)) for kk, v in e[3]]
+    if rng.random() < p:
+        r = rng.random()
+        if r < 0.3 and args:
+            del args[rng.randrange(len(args))]
+        elif r < 0.55:
+            args.insert(rng.randint(0, len(args)), V(rng.choice(TARGET_POOL)))
+        elif r < 0.75 and kw:
+            del kw[rng.randrange(len(kw))]
+        elif r < 0.85:
+            kw.append((rng.choice([x for x in KW_POOL + ["n"] if x not in [kk for kk, _ in kw]]), V("q")))
+        else:
+            f = V(rng.choice(FUN_POOL))
+    return ("call", f, args, kw)
+
+
 def instantiate(e, s):
     """Substitute, then splice: the instance of a variable standing in a sum may itself be a sum."""
     return subst_t(e, s)
@@ -535,12 +581,16 @@ def rand_case(rng):
             dropped = scramble(rng, tpl, eff_free, 0.6)
             tgt = scramble(rng, instantiate(dropped, s), [], 0.0)
         origin = "instance"
+        if rng.random() < 0.15:
+            tgt = perturb_calls(rng, tgt)
+            origin = "perturbed-instance"
     pre = None
     pk = rng.random()
     if pk < 0.25 and eff_free:
         x = rng.choice(eff_free)
         good = s.get(x, V("a"))
-        pre = [(x, good if rng.random() < 0.7 else rand_value(rng, 2))]
+        bad = V(rng.choice(FUN_POOL)) if x in fn_names(tpl) else rand_value(rng, 2)
+        pre = [(x, good if rng.random() < 0.7 else bad)]
         if rng.random() < 0.3 and len(eff_free) > 1:
             y = rng.choice([z for z in eff_free if z != x])
             pre.append((y, s.get(y, V("b"))))
@@ -578,7 +628,7 @@ def exhaustive_cases(tier):
     all sums of 3 atoms from {x, y, a} (thorough: sums and products of 3 atoms from {x, y, a, 2}); targets = the atoms
     a, b, 0, 1, 2 and all sums and products of 2..3 atoms from {a, b, 2}.  (2) calls fn(c1, c2) and f(k=c1, j=c2)
     with c from {x, a, x+a, x*y[, x+y]} against fn'(o1, o2) resp. f(j=o2, k=o1) with o from {a, b, 1, a+b, b+a[, a*b]},
-    fn in {f, x (free symbol)}, fn' in {f, g}."""
+    fn in {f, x (free symbol)}, fn' in {f, g}; the same with one positional/keyword argument more or less on one side."""
     t_atoms = [V("x"), V("y"), V("a"), I(2)]
     o_atoms = [V("a"), V("b"), I(2)]
     o_single = [V("a"), V("b"), I(0), I(1), I(2)]
@@ -613,6 +663,16 @@ def exhaustive_cases(tier):
                             cases.append(mk_case(("call", V("f"), [], [("k", c1), ("j", c2)]),
                                                  ("call", V("f"), [], [("j", o2), ("k", o1)]),
                                                  ["x", "y"], None, None, "exhaustive-kw"))
+    for c1 in t_small:
+        for o1 in o_small:
+            for o2 in o_small:
+                cases.append(mk_case(("call", V("f"), [c1], []), ("call", V("f"), [o1, o2], []),
+                                     ["x", "y"], None, None, "exhaustive-arity"))
+                cases.append(mk_case(("call", V("f"), [c1], [("k", V("y"))]), ("call", V("f"), [o1], [("k", o2), ("j", o1)]),
+                                     ["x", "y"], None, None, "exhaustive-arity"))
+            for c2 in t_small:
+                cases.append(mk_case(("call", V("f"), [c1, c2], []), ("call", V("f"), [o1], []),
+                                     ["x", "y"], None, None, "exhaustive-arity"))
     return cases
 
 
@@ -643,7 +703,7 @@ def gen_cases(tier, seed):
     ex = exhaustive_cases(tier)
     cases.extend(ex)
     rng = random.Random(seed * 7919 + 17)
-    nrand = 2000 if tier == "quick" else 40000
+    nrand = 2000 if tier == "quick" else 20000
     for _ in range(nrand):
         cases.append(rand_case(rng))
     dist = {"corpus": n_corpus, "exhaustive": len(ex), "random": nrand,
@@ -702,6 +762,12 @@ def _neighbours(c):
     if a[0] == "call" and b[0] == "call":
         for i in range(min(len(a[2]), len(b[2]))):
             yield dict(c, tpl=a[2][i], tgt=b[2][i])
+            yield dict(c, tpl=("call", a[1], a[2][:i] + a[2][i + 1:], a[3]),
+                       tgt=("call", b[1], b[2][:i] + b[2][i + 1:], b[3]))
+        for i in range(len(a[2])):
+            yield dict(c, tpl=("call", a[1], a[2][:i] + a[2][i + 1:], a[3]))
+        for i in range(len(b[2])):
+            yield dict(c, tgt=("call", b[1], b[2][:i] + b[2][i + 1:], b[3]))
     if c["pre"]:
         for i, (x, v) in enumerate(c["pre"]):
             for v2 in _sub_exprs(v):
@@ -764,7 +830,31 @@ def case_term(c, r):
 
 
 def public(r):
-    return {k: v for k, v in r.items() if k != "real"}
+    return dict(r)
+
+
+def run_impl_other_seed(cases, hashseed):
+    """Run the implementation on `cases` in a fresh interpreter with another PYTHONHASHSEED (the iteration order
+    of the Python set in map_modulo_identity, hence the FIRST record, depends on it)."""
+    import pickle
+    import subprocess
+    import sys
+    import tempfile
+    d = tempfile.mkdtemp(prefix="c17_")
+    try:
+        with open(os.path.join(d, "cases.pkl"), "wb") as f:
+            pickle.dump(cases, f)
+        env = dict(os.environ, PYTHONHASHSEED=str(hashseed))
+        subprocess.run([sys.executable, "-c",
+                        "import pickle, sys; from harness import c17; "
+                        "cs = pickle.load(open(sys.argv[1] + '/cases.pkl', 'rb')); "
+                        "pickle.dump([c17.run_impl(c) for c in cs], open(sys.argv[1] + '/res.pkl', 'wb'))", d],
+                       env=env, check=True, timeout=900, cwd=common.VERIF)
+        with open(os.path.join(d, "res.pkl"), "rb") as f:
+            return pickle.load(f)
+    finally:
+        import shutil
+        shutil.rmtree(d, ignore_errors=True)
 
 
 def is_nontrivial(c, r):
@@ -781,6 +871,18 @@ def main(tier):
 
     cases, dist = gen_cases(tier, seed)
     results = [run_impl(c) for c in cases]
+    # the same inputs under other hash seeds: corpus + cases whose answer was ambiguous
+    amb_idx = [i for i, r in enumerate(results) if r.get("ambiguous") or i < dist["corpus"]]
+    amb_idx = amb_idx[:300 if tier == "quick" else 2000]
+    other_seeds = (1,) if tier == "quick" else (1, 2, 3)
+    n_other = 0
+    for hs in other_seeds:
+        sub = [dict(cases[i], origin="hashseed=%d" % hs) for i in amb_idx]
+        res = run_impl_other_seed(sub, hs)
+        cases.extend(sub)
+        results.extend(res)
+        n_other += len(sub)
+    dist["other_hash_seeds"] = {"seeds": list(other_seeds), "cases": n_other}
 
     # implementation-level oracle on every case
     failing = {}
@@ -837,7 +939,7 @@ def main(tier):
         kinds[r["kind"]] = kinds.get(r["kind"], 0) + 1
     distinct = len({json.dumps(case_to_json(c), sort_keys=True) for c, r in zip(cases, results)
                     if is_nontrivial(c, r)})
-    mid = len(cases) - dist["random"] // 2
+    mid = dist["corpus"] + dist["exhaustive"] + dist["random"] // 2
     rep.coverage.update(
         evaluations=len(cases), distinct_nontrivial=distinct,
         rule="cases = corpus + exhaustive small templates x targets + random structured pairs; non-trivial = "
